@@ -23,10 +23,10 @@ namespace CloseGraph
 open Layers
 
 /-- `true` once hooks/C01-fix-limiter-close.patch is applied to /repo (closure captures the value) -/
-def limiterCloseIsFixed : Bool := false
+def limiterCloseIsFixed : Bool := true
 
 /-- `true` once hooks/C01-fix-closenotify.patch is applied (`cc.Conn.Close()`) -/
-def closeNotifyIsFixed : Bool := false
+def closeNotifyIsFixed : Bool := true
 
 inductive Ref
   | node (i : Nat)      -- a value fixed when the closure was built
